@@ -44,6 +44,11 @@ def encItems {ι : Type} (sd : Serde ι) : List ι → Bytes
 
 def decItems {ι : Type} (sd : Serde ι) (n : Nat) : Reader (List ι) := repeatN sd.dec n
 
+/-- wire size of an item list (`Σ size_of_item`) -/
+def itemsBytes {ι : Type} (sd : Serde ι) : List ι → Nat
+  | [] => 0
+  | x :: t => (sd.enc x).length + itemsBytes sd t
+
 /-- 64-bit words written back to back -/
 def encU64s : List Nat → Bytes
   | [] => []
